@@ -43,7 +43,7 @@ def cts_case(ctx, t):
                     want = t >= c and (thr <= 0 or t - now < thr)
                     # a real clock reads fractions of a second: the whole second counts (int(time())), so now + 0.5 and
                     # now + 0.999 are the same instant as now
-                    for verify, frac in ((False, 0), (True, 0)) + (((False, 0.5), (True, 0.999)) if 0 <= now < 2 ** 50 else ()):
+                    for verify, frac in ((False, 0), (True, 0)) + (((False, 0.5), (True, 0.999)) if 0 <= now < 2 ** 50 and int(now + 0.999) == now else ()):
                         env.Clock.now = now + frac if frac else now
                         n += 1
                         code = pushc(enc) + op('CHECK_TIMESTAMP_VERIFY' if verify else 'CHECK_TIMESTAMP')
@@ -96,7 +96,7 @@ def ce_case(ctx, c):
                 now = c - (ethr + dn)
                 env.Clock.now = now
                 want = c - now < ethr
-                fracs = (0.5, 0.999) if 0 <= now < 2 ** 50 else ()
+                fracs = (0.5, 0.999) if 0 <= now < 2 ** 50 and int(now + 0.999) == now else ()   # (a double cannot hold now + 0.999 above 2^43)
                 # the epoch window is measured against the verifier clock: the execution timestamp in the cache
                 # (absent, zero, far past, far future) must not matter
                 for verify, tsv, frac in ((False, None, 0), (True, None, 0), (False, 0, 0), (False, now - 1000, 0), (True, now + 1000, 0)) + \
